@@ -1,10 +1,10 @@
 (* Extract.v -- extraction of the executable model to OCaml (ExtrOcamlBasic only). *)
 From Coq Require Extraction ExtrOcamlBasic.
-From BpafModel Require Import Eval Wf Menu Console Process Shell Help Docs Conv Derive.
+From BpafModel Require Import Eval Wf Menu Console Process Shell Complete Help Docs Conv Derive.
 Extraction "model.ml" run_inner run_inner_state guard_menu parse_menu map_menu any_menu
   default_info default_help_arg default_version_arg convert tokenize split_os_argument
   utf8_decode utf8_encode invariant_ok meta_of short_tables initial_state
-  render_console program_name render_zsh render_bash render_fish render_simple arg_matches cmd_matches
+  render_console program_name render_zsh render_bash render_fish render_simple arg_matches cmd_matches complete
   render_help info_meta
   collect_html manpage_doc render_html render_roff manpage_th
   denote compile_options flat_okb chain_okb tree_okb oko
